@@ -50,6 +50,13 @@ func (c *msgpackCodec) ReadResponseHeader(r *rpc.Response) error {
 }
 
 func (c *msgpackCodec) ReadResponseBody(body any) error {
+	if body == nil {
+		/* net/rpc passes nil for the body of an error response, it wants the
+		 * value read and discarded. Decode(nil) is an error for msgpack which
+		 * net/rpc takes as a broken stream: it used to close the connection
+		 * and fail every other call in flight to that server. */
+		return c.dec.Skip()
+	}
 	return c.dec.Decode(body)
 }
 
@@ -60,6 +67,10 @@ func (c *msgpackCodec) ReadRequestHeader(r *rpc.Request) error {
 }
 
 func (c *msgpackCodec) ReadRequestBody(body any) error {
+	if body == nil {
+		// Same on the server side, e.g. the body of a request for an unknown method
+		return c.dec.Skip()
+	}
 	return c.dec.Decode(body)
 }
 
